@@ -41,3 +41,33 @@ def replay(o):
     from pyvc.concrete import replay_scenario
 
     return replay_scenario(o)
+
+
+KNOWN_WITNESS_SRC = """
+import json, warnings
+import numpy as np, pandas as pd
+warnings.filterwarnings("ignore")
+import bt
+from bt.core import Strategy
+idx = pd.date_range("2021-01-04", periods=3)
+data = pd.DataFrame({"a": [100.0, 100.0, 100.0]}, index=idx)
+s = Strategy("s", [], children=["a"]); s.setup(data)
+s.adjust(1000.0); s.update(idx[0])
+s.update(idx[1])
+s.adjust(500.0)          # a change made after the last update of the date, never read ...
+s.update(idx[2])         # ... and the clock moves on
+v = [float(x) for x in s.values.values]; f = [float(x) for x in s.flows.values]
+# end-of-date state of idx[1] was: cash 1500 (capital), hence value 1500 with a flow of 500 recorded that date
+print("JSON:" + json.dumps(dict(still=(v[1] != 1500.0 or f[1] != 500.0), values=v, flows=f, prices=[float(x) for x in s.prices.values])))
+"""
+
+
+def known_witness(f):
+    """replays the recorded failing history of a known finding on the current tree (real code)"""
+    if f["id"] != "C01-pending-change-lost-when-the-date-moves":
+        return None
+    from pyvc.replay import Scratch
+
+    with Scratch() as sc:
+        d = sc.run_json(KNOWN_WITNESS_SRC, timeout=120)
+    return bool(d.get("still"))
